@@ -176,6 +176,16 @@ func (g *Gen) unop(x *ssa.UnOp) {
 		if l.kind == "heap" && !l.obj && g.pristine[g.heapGet(l.comp)] {
 			old = true
 		}
+		if l.kind == "heap" && l.obj {
+			// a pointer-like value read from a cell (e.g. a package-level variable) whose component still
+			// has a version that predates the function denotes an object that existed at entry
+			switch l.typ.Underlying().(type) {
+			case *types.Pointer, *types.Map, *types.Interface:
+				if c, _ := g.cellComp(l.typ); g.pristine[g.heapGet(c)] {
+					old = true
+				}
+			}
+		}
 		if c := g.typeInv(v, x.Type(), old); c != "true" {
 			g.assumeAlways(c)
 		}
@@ -820,8 +830,30 @@ func (g *Gen) callCommon(in *ssa.Call, cc *ssa.CallCommon, guard string) {
 	g.ncallFresh++
 	env.freshLo = fmt.Sprintf("%d000000000000", 1+g.ncallFresh)
 	env.freshHi = fmt.Sprintf("%d000000000000", 2+g.ncallFresh)
-	for _, e := range ct.Ensures {
+	for _, e := range ct.Trusts {
 		g.assume(guard, g.transBool(e.E, env))
+		g.assumptions["trusted (unchecked) postcondition of "+shortFn(ct.Key)+": "+e.E.String()] = true
+	}
+	for _, e := range ct.Ensures {
+		if g.fr.c != nil && e.Label != "" && g.fr.c.Ignores[lastName(key)+"#"+e.Label] {
+			continue // the enclosing function's contract asks not to assume this (weaker context, sound)
+		}
+		// A postcondition written for the other arithmetic mode (bit operations in a contract that an
+		// `arith int` caller uses) cannot be stated here: it is then NOT assumed (weaker context, sound)
+		func() {
+			nd, nc := len(g.defs), len(g.decls)
+			defer func() {
+				if r := recover(); r != nil {
+					te, isT := r.(transErr)
+					if !isT || !(strings.Contains(te.msg, "in int mode") || strings.Contains(te.msg, "width mismatch")) {
+						panic(r)
+					}
+					g.defs, g.decls = g.defs[:nd], g.decls[:nc]
+					g.note("postcondition of %s not usable in this arithmetic mode (dropped): %s", key, e.E.String())
+				}
+			}()
+			g.assume(guard, g.transBool(e.E, env))
+		}()
 	}
 	for i := range env.freshTerms {
 		for j := i + 1; j < len(env.freshTerms); j++ {
@@ -860,6 +892,16 @@ func (g *Gen) atAnchor(anchor string, env *TEnv) {
 			}
 			e2.oldEntry = true
 			p, ok := g.tryTransBool(a.E, e2)
+			if !ok && anchor == "return" && !a.Assume && a.E.Op == "bin" && a.E.Val == "==>" {
+				// `A ==> B` at a return where B speaks about program variables that do not exist on this
+				// path: if A itself can be evaluated here (it speaks about results and parameters), this
+				// return must not satisfy A -- otherwise a new early return would escape the clause
+				if pa, okA := g.tryTransBool(a.E.Args[0], e2); okA {
+					g.firedAnchors[anchor] = true
+					g.ob("assert", invLabel(&Clause{Label: a.Label}, i), fmt.Sprintf("(not %s)", pa), a.Anchor+" (variables of the consequent are not defined on this path, so the antecedent must be false): "+a.E.Args[0].String())
+				}
+				continue
+			}
 			if !ok {
 				continue // clause mentions a program variable that is not defined on this path
 			}
@@ -988,7 +1030,7 @@ func (g *Gen) copyBuiltin(in *ssa.Call, cc *ssa.CallCommon) {
 	offd, offs := fmt.Sprintf("(off %s)", dst), fmt.Sprintf("(off %s)", src)
 	g.assumeAlways(fmt.Sprintf("(forall ((%s %s)) (! (= (select %s %s) (ite (and %s %s) (select (select %s (base %s)) %s) (select (select %s (base %s)) %s))) :pattern ((select %s %s))))",
 		i, g.idxSort(), na, i, g.le(offd, i, true), g.lt(i, g.addIdx(offd, n), true),
-		h, src, g.addIdx(offs, g.subIdx(i, offd)), h, dst, i, na, i))
+		h, src, g.elemIdx(offs, g.subIdx(i, offd)), h, dst, i, na, i))
 	g.setComp(c, fmt.Sprintf("(ite %s %s (store %s (base %s) %s))", g.le(n, g.idx(0), true), h, h, dst, na))
 	if in != nil {
 		g.fr.val[in] = n
@@ -1035,10 +1077,10 @@ func (g *Gen) appendBuiltin(in *ssa.Call, cc *ssa.CallCommon) {
 		i, g.idxSort(), na, i,
 		// appended range
 		g.le(g.addIdx(roff, la), i, true), g.lt(i, g.addIdx(roff, nl), true),
-		srcMem, b, g.addIdx(offb, g.subIdx(i, g.addIdx(roff, la))),
+		srcMem, b, g.elemIdx(offb, g.subIdx(i, g.addIdx(roff, la))),
 		// prefix
 		g.le(roff, i, true), g.lt(i, g.addIdx(roff, la), true),
-		h, a, g.addIdx(offa, g.subIdx(i, roff)),
+		h, a, g.elemIdx(offa, g.subIdx(i, roff)),
 		// outside: in place keeps old, fresh is zero
 		fits, h, a, i, g.zeroValue(et),
 		na, i))
